@@ -105,6 +105,10 @@ impl FileSystem for OverlayFS {
                 }
             }
         }
+        if path.is_empty() {
+            // the whiteout bookkeeping directory is not part of the overlay's namespace
+            entries.remove(".whiteout");
+        }
         Ok(Box::new(entries.into_iter()))
     }
 
